@@ -120,7 +120,8 @@ func encodeText(cs *charset, text []rune) []byte {
 // restarts input with a Suspend/Resume cycle: cycles >= 1).
 func runC11(cfg hx.Config, ch *simrt.Chooser, cs *charset, text []rune, paste bool, focus int, cuts []int, delivery int, cycles int, via int, readErr bool) (*hx.Failure, error) {
 	cfg.Locale = "en_US." + cs.Name
-	cfg.LocaleVia = via
+	cfg.LocaleVia = via % 5
+	cfg.LocaleForm = via / 5 // 0, or 3: language.codeset@modifier
 	w, err := newIW(cfg, ch)
 	if err != nil {
 		return nil, err
@@ -410,7 +411,10 @@ func TestC11(t *testing.T) {
 		ti := hx.Term(cfg.Term, false)
 		seqs, _ := keySeqs(ti)
 		for _, ks := range seqs {
-			if strings.HasPrefix(ks.Seq, "\x1b[O") || strings.HasPrefix(ks.Seq, "\x1b[I") {
+			// a focus-in report that is also the start of a key sequence is
+			// ambiguous in front of text; a focus-out report is the last
+			// thing sent, and the escape timeout settles it
+			if focus == 1 && strings.HasPrefix(ks.Seq, "\x1b[I") && len(ks.Seq) > 3 {
 				focus = 0
 			}
 		}
@@ -430,7 +434,11 @@ func TestC11(t *testing.T) {
 		hx.Arm("C11")
 		defer hx.Disarm()
 		cycles := rapid.SampledFrom([]int{0, 0, 0, 1, 2}).Draw(rt, "cycles")
-		via := rapid.IntRange(0, 4).Draw(rt, "localevia")
+		via := rapid.IntRange(0, 4).Draw(rt, "localevia") + 5*rapid.SampledFrom([]int{0, 0, 3}).Draw(rt, "localeform")
+		if strings.EqualFold(cs.Name, "utf-8") {
+			// glibc's C.UTF-8 / POSIX.UTF-8 spellings
+			via = via%5 + 5*rapid.SampledFrom([]int{0, 1, 2, 3, 4}).Draw(rt, "localeform8")
+		}
 		readErr := rapid.IntRange(0, 5).Draw(rt, "readerr") == 0
 		f, err := runC11(cfg, ch, cs, text, paste, focus, cuts, delivery, cycles, via, readErr)
 		if err != nil {
